@@ -19,6 +19,8 @@
 (*   TocStep        Document::get_toc = get_outlines + setup_outline_page_  *)
 (*                  ids + title decoding                                    *)
 (*   ImgStep        Document::get_page_images (loop over XObject entries)   *)
+(*   PgStep         PageTreeIter::next + size_hint as driven by the          *)
+(*                  `collect()` of get_pages (Vec growth asks size_hint)      *)
 (* A partial operation (indexing [0]/[1] of a short array, unwrap of an     *)
 (* absent key / wrong kind) is a transition to pc = "panic".  Recursion is  *)
 (* an explicit stack; entering, through a reference, a dictionary whose     *)
@@ -49,7 +51,8 @@ CONSTANTS DerefLimit,        \* Document::DEREF_LIMIT (128 in the code)
           Dev_NdUnwrapD,     \* get_named_destinations: dict.get(b"D").as_ref().unwrap()
           Dev_NdKeyStr,      \* get_named_destinations: key.as_str().unwrap()
           Dev_NdValIndex,    \* get_named_destinations: val[0], val[1]
-          Dev_CsIndex        \* get_page_images: array[0] of the ColorSpace array
+          Dev_CsIndex,       \* get_page_images: array[0] of the ColorSpace array
+          Dev_SizeHint       \* PageTreeIter::size_hint: sum of the /Count entries, unclamped
 
 Mk(k, n, s, e, d) == [k |-> k, n |-> n, s |-> s, e |-> e, d |-> d]
 None      == Mk("none", 0, "", <<>>, <<>>)
@@ -214,6 +217,77 @@ RECURSIVE NdRun(_, _)
 NdRun(doc, s) == IF s.pc \in Final THEN s ELSE NdRun(doc, NdStep(doc, s))
 
 -----------------------------------------------------------------------------
+(* PageTreeIter as driven by get_pages(): `page_iter().enumerate().map(..).collect()` first    *)
+(* collects into a Vec, which asks size_hint() after the first page and whenever it is full.   *)
+(* size_hint adds max(0, /Count) of every pending Pages node: file-controlled and unclamped,   *)
+(* so `Vec::with_capacity(lower + 1)` is a partial operation ("capacity overflow").  Integers   *)
+(* n >= Huge stand for values near i64::MAX.  (The walk itself is property C12's subject.)     *)
+
+Huge == 1073741824
+PageTreeDepthLimit == 256
+
+TypeOf(dd) == LET t == DGet(dd, "Type")
+              IN IF t.k = "name" THEN t.s ELSE IF DGet(dd, "Linearized") # None THEN "Linearized" ELSE ""
+
+PgKids(doc, id) ==
+    LET pt == GetDictionary(doc, id)
+        k  == IF pt = None THEN None ELSE Deref(doc, DGet(pt, "Kids"))
+    IN IF k.k = "arr" THEN k.e ELSE <<>>
+
+PgInit(doc) ==
+    LET cat == Catalog(doc)
+        pr  == IF cat = None THEN None ELSE DGet(cat, "Pages")
+    IN [pc |-> "run", kids |-> IF pr.k = "ref" THEN PgKids(doc, pr.n) ELSE <<>>, stack |-> <<>>,
+        limit |-> NObj(doc), out |-> <<>>, cap |-> 0, cls |-> ""]
+
+\* one summand of size_hint
+PgTerm(doc, kid) ==
+    LET kd == IF kid.k = "ref" THEN GetDictionary(doc, kid.n) ELSE None
+        c  == Deref(doc, DGet(kd, "Count"))
+    IN IF kd # None /\ TypeOf(kd) = "Pages" THEN (IF c.k = "int" /\ c.n > 0 THEN c.n ELSE 0) ELSE 1
+
+PgHintHuge(doc, kids, stack) ==
+    \/ \E i \in 1..Len(kids) : PgTerm(doc, kids[i]) >= Huge
+    \/ \E j \in 1..Len(stack) : \E i \in 1..Len(stack[j]) : PgTerm(doc, stack[j][i]) >= Huge
+
+PgHint(doc, kids, stack) ==      \* only evaluated when no summand is huge
+    LET K[i \in 0..Len(kids)] == IF i = 0 THEN 0 ELSE K[i - 1] + PgTerm(doc, kids[i])
+        L(q) == LET F[i \in 0..Len(q)] == IF i = 0 THEN 0 ELSE F[i - 1] + PgTerm(doc, q[i]) IN F[Len(q)]
+        S[j \in 0..Len(stack)] == IF j = 0 THEN 0 ELSE S[j - 1] + L(stack[j])
+    IN K[Len(kids)] + S[Len(stack)]
+
+Max(a, b) == IF a >= b THEN a ELSE b
+
+PgStep(doc, s) ==
+    IF s.kids # <<>> THEN
+        IF s.limit = 0 THEN [s EXCEPT !.pc = "ok"]
+        ELSE LET kid  == Head(s.kids)
+                 rest == Tail(s.kids)
+                 kd   == IF kid.k = "ref" THEN GetDictionary(doc, kid.n) ELSE None
+                 ty   == IF kd = None THEN "" ELSE TypeOf(kd)
+                 s1   == [s EXCEPT !.limit = s.limit - 1, !.kids = rest]
+                 len  == Len(s.out)
+                 ask  == len = 0 \/ len = s.cap                 \* the Vec has to allocate / grow
+             IN IF ty = "Page" THEN
+                    IF ask /\ PgHintHuge(doc, rest, s.stack)
+                    THEN IF Dev_SizeHint THEN [s1 EXCEPT !.pc = "panic", !.cls = "pages.count.huge"]
+                         ELSE [s1 EXCEPT !.out = Append(s.out, kid.n), !.cap = Max(4, 2 * s.cap)]   \* repaired: clamped
+                    ELSE IF ask
+                         THEN [s1 EXCEPT !.out = Append(s.out, kid.n),
+                                         !.cap = IF len = 0 THEN Max(4, PgHint(doc, rest, s.stack) + 1)
+                                                 ELSE Max(2 * s.cap, len + PgHint(doc, rest, s.stack) + 1)]
+                         ELSE [s1 EXCEPT !.out = Append(s.out, kid.n)]
+                ELSE IF ty = "Pages" /\ Len(s.stack) < PageTreeDepthLimit
+                     THEN [s1 EXCEPT !.stack = IF rest # <<>> THEN Append(s.stack, rest) ELSE s.stack,
+                                     !.kids = PgKids(doc, kid.n)]
+                ELSE s1
+    ELSE IF s.stack # <<>> THEN [s EXCEPT !.kids = s.stack[Len(s.stack)], !.stack = SubSeq(s.stack, 1, Len(s.stack) - 1)]
+    ELSE [s EXCEPT !.pc = "ok"]
+
+RECURSIVE PgRun(_, _)
+PgRun(doc, s) == IF s.pc \in Final THEN s ELSE PgRun(doc, PgStep(doc, s))
+
+-----------------------------------------------------------------------------
 (* Document::get_outline(node, named_destinations) and build_outline_result:               *)
 (* straight-line code, result [r, title, page, cls] with r \in some / none / err / panic.   *)
 
@@ -349,12 +423,16 @@ TitleDecode(t) ==
     ELSE "ok"
 
 TocStep(doc, s) ==
-    IF s.pc = "post" THEN
-        IF s.i > Len(s.dests) THEN [s EXCEPT !.pc = "ok"]
+    IF s.pc = "post" THEN                      \* setup_outline_page_ids: title()?.as_str()?, page()?.as_reference()?
+        IF s.i > Len(s.dests) THEN
+            LET pg == PgRun(doc, PgInit(doc))   \* setup_page_id_to_num: self.get_pages()
+            IN IF pg.pc = "panic" THEN [s EXCEPT !.pc = "panic", !.cls = pg.cls] ELSE [s EXCEPT !.pc = "decode", !.i = 1]
         ELSE LET t == s.dests[s.i][1]  p == s.dests[s.i][2]
-             IN IF t.k # "str" \/ p.k # "ref" THEN [s EXCEPT !.pc = "err"]
-                ELSE IF TitleDecode(t.s) # "ok" THEN [s EXCEPT !.pc = "panic", !.cls = "toc.title"]
-                ELSE [s EXCEPT !.i = s.i + 1]
+             IN IF t.k # "str" \/ p.k # "ref" THEN [s EXCEPT !.pc = "err"] ELSE [s EXCEPT !.i = s.i + 1]
+    ELSE IF s.pc = "decode" THEN               \* the title decoding loop
+        IF s.i > Len(s.dests) THEN [s EXCEPT !.pc = "ok"]
+        ELSE IF TitleDecode(s.dests[s.i][1].s) # "ok" THEN [s EXCEPT !.pc = "panic", !.cls = "toc.title"]
+        ELSE [s EXCEPT !.i = s.i + 1]
     ELSE LET o == OutStep(doc, s)
          IN IF o.pc = "ok" THEN [o EXCEPT !.pc = "post", !.i = 1] ELSE o
 
